@@ -1,86 +1,214 @@
 /-
-  Proof/MultiSignal.lean — invariants of the multi-waiter signal model (fiber_multi_signal_t,
-  include/fiber_signal.h).  Multi-signal clause of property C20.
-
-  Core of the ABA argument: `counter` is incremented by EVERY successful CAS2
-  (`counter = updates`), a snapshot reads the counter FIRST, so a CAS2 that succeeds from a
-  snapshot (c, h) proves that nothing changed since c was read: `head` is still h, and — for
-  a raise — the node h is still the top of the list and its `next` is still what was read.
+  Proof/MultiSignal.lean — the invariant of the multi-waiter signal model along every run, and
+  the lemmas behind the multi-signal clause of C20 (Props/C20.lean, section MultiSignal).
 -/
-import LibfiberVerif.Model.MultiSignal
+import LibfiberVerif.Proof.MultiSignalS1
+import LibfiberVerif.Proof.MultiSignalS2
+import LibfiberVerif.Proof.MultiSignalS3
+import LibfiberVerif.Proof.MultiSignalS4
+import LibfiberVerif.Proof.MultiSignalS5
 
 namespace LibfiberVerif.MultiSignal
 
-def headOf : List Nat → H
-  | [] => .nil
-  | n :: _ => .node n
+theorem inv_step (s s' : St) (e : Ev) (hi : Inv s) (hs : step s e = some s') : Inv s' := by
+  cases e with
+  | callWait f => exact inv_step_callWait s s' f hi hs
+  | retWait f => exact inv_step_retWait s s' f hi hs
+  | callRaise f st => exact inv_step_callRaise s s' f st hi hs
+  | retRaise f st r => exact inv_step_retRaise s s' f st r hi hs
+  | clrScratch f => exact inv_step_clrScratch s s' f hi hs
+  | rNode f g n => exact inv_step_rNode s s' f g n hi hs
+  | wData f n g => exact inv_step_wData s s' f n g hi hs
+  | ldC f c => exact inv_step_ldC s s' f c hi hs
+  | ldH f h => exact inv_step_ldH s s' f h hi hs
+  | rNext f n h => exact inv_step_rNext s s' f n h hi hs
+  | wStateWaiting f => exact inv_step_wStateWaiting s s' f hi hs
+  | setWait g f => exact inv_step_setWait s s' g f hi hs
+  | rData f n g => exact inv_step_rData s s' f n g hi hs
+  | wNode f g n => exact inv_step_wNode s s' f g n hi hs
+  | rScratch f g ready => exact inv_step_rScratch s s' f g ready hi hs
+  | wStateReady f g => exact inv_step_wStateReady s s' f g hi hs
+  | callTake f => exact inv_step_callTake s s' f hi hs
+  | took f => exact inv_step_took s s' f hi hs
+  | retTake f => exact inv_step_retTake s s' f hi hs
+  | callPublish f => exact inv_step_callPublish s s' f hi hs
+  | ldTokens f v => exact inv_step_ldTokens s s' f v hi hs
+  | casTokens f a b c ok => exact inv_step_casTokens s s' f a b c ok hi hs
+  | faddTokens f old => exact inv_step_faddTokens s s' f old hi hs
+  | peekHead f h => exact inv_step_peekHead s s' f h hi hs
+  | wNext f n h => exact inv_step_wNext s s' f n h hi hs
+  | cas2 f ec eh nc nh ok => exact inv_step_cas2 s s' f ec eh nc nh ok hi hs
 
-/-- the `next` pointers of the listed nodes form the list -/
-def Chain (next : Nat → H) : List Nat → Prop
-  | [] => True
-  | n :: rest => next n = headOf rest ∧ Chain next rest
+theorem inv_of_run {es : List Ev} {s : St} (h : (sys (fun k => k)).run es = some s) : Inv s :=
+  Sys.inv_of_run (sys (fun k => k)) Inv inv_init (fun s e s' hi hs => inv_step s s' e hi hs) h
 
-theorem chain_upd_of_not_mem (next : Nat → H) (n : Nat) (h : H) :
-    ∀ l : List Nat, n ∉ l → Chain next l → Chain (upd next n h) l := by
-  intro l
-  induction l with
-  | nil => intros; trivial
-  | cons m rest ih =>
-    intro hn hc
-    simp only [List.mem_cons, not_or] at hn
-    refine ⟨?_, ih hn.2 hc.2⟩
-    have : m ≠ n := fun e => hn.1 e.symm
-    simp [upd, this, hc.1]
+/-! ### consequences -/
 
-theorem headOf_eq_node {l : List Nat} {n : Nat} (h : headOf l = .node n) : ∃ rest, l = n :: rest := by
-  cases l with
-  | nil => simp [headOf] at h
-  | cons m rest => simp [headOf] at h; exact ⟨rest, by rw [h]⟩
+/-- the pcs of fiber_multi_signal_raise / _raise_strict from which the CAS2 is issued -/
+def Pc.raiseCas (p : Pc) : Prop := (∃ c h, p = .rLdH c h) ∨ (∃ c n x, p = .rNext c n x)
 
-/-- f has listed itself and has not resumed -/
-def Pc.sleepy (p : Pc) : Prop := p = .wListed ∨ p = .parking ∨ p = .parked
+/-- the pcs of fiber_multi_signal_wait from which the CAS2 is issued -/
+def Pc.waitCas (p : Pc) : Prop := (∃ n c h, p = .wLdH n c h) ∨ (∃ n c h, p = .wNext n c h)
 
-/-- the raiser has popped g's node and is about to wake g -/
-def Pc.targets (p : Pc) (g : Nat) : Prop :=
-  p = .rPopped g ∨ p = .rGotData g g ∨ p = .rGaveNode g ∨ p = .rReady g
+/-- A successful CAS2 of a raise either pops exactly the top waiter (which this raiser will
+    wake) or finds no waiter listed and leaves RAISED. -/
+theorem raise_cas_ok {s s' : St} (hi : Inv s) (f ec : Nat) (eh : H) (nc : Nat) (nh : H)
+    (hr : (s.pc f).raiseCas) (hs : step s (.cas2 f ec eh nc nh true) = some s') :
+    (∃ n rest, s.stack = n :: rest ∧ eh = .node n ∧ s'.stack = rest ∧ s'.head = headOf rest ∧
+        s'.pc f = .rPopped n ∧ s'.waker n = some f ∧ s'.released = s.released + 1) ∨
+    (s.stack = [] ∧ (eh = .nil ∨ eh = .raised) ∧ s'.stack = [] ∧ s'.head = .raised ∧
+        s'.pc f = .rDone false ∧ s'.released = s.released ∧ s'.waker = s.waker ∧ s'.wakes = s.wakes) := by
+  obtain ⟨hraised, hnil, hnode⟩ := stack_of_head hi
+  by_cases hpre : true ≠ casOk s ec eh ∨ nc ≠ ec + 1
+  · simp only [step, if_pos hpre] at hs; simp at hs
+  simp only [step, if_neg hpre] at hs
+  simp only [not_or, Decidable.not_not, casOk] at hpre
+  obtain ⟨hok, hnc⟩ := hpre
+  simp at hok
+  obtain ⟨hcnt, hhead⟩ := hok
+  simp only [Pc.raiseCas] at hr
+  rcases hr with ⟨c, h, hpc⟩ | ⟨c, n, x, hpc⟩
+  · right
+    simp only [hpc] at hs
+    split at hs <;> simp at hs
+    rename_i hc
+    obtain ⟨_, hec, heh, hh, hnh⟩ := hc
+    subst hec heh hnh hs
+    have hempty : s.stack = [] := by
+      rcases hh with h' | h'
+      · exact hnil (by rw [hhead, h'])
+      · exact hraised (by rw [hhead, h'])
+    simp [hempty, upd, hh]
+  · left
+    simp only [hpc] at hs
+    split at hs <;> simp at hs
+    rename_i hc
+    obtain ⟨hec, heh, hnh⟩ := hc
+    subst hec heh hnh hs
+    obtain ⟨_, hsnap⟩ := hi.snapR3 f ec n nh hpc
+    obtain ⟨_, hx⟩ := hsnap hcnt.symm
+    obtain ⟨rest, hstk, hnx, _⟩ := hnode n hhead
+    exact ⟨n, rest, hstk, rfl, by simp [hstk], by simp [hx, hnx], by simp [upd], by simp [upd], rfl⟩
 
-structure Inv (s : St) : Prop where
-  cnt : s.counter = s.updates
-  fnode_id : ∀ f, s.fnode f = f
-  head_stack : s.head = headOf s.stack ∨ (s.stack = [] ∧ s.head = .raised)
-  chain : Chain s.next s.stack
-  nodup : s.stack.Nodup
-  listed : ∀ n, n ∈ s.stack →
-    (s.pc n).sleepy ∧ s.wakes n + 1 = s.parks n ∧ (∀ g, s.waker n ≠ some g) ∧ s.ndata n = n
-  wEarly1 : ∀ f n, s.pc f = .wGotNode n → n = f
-  wEarly2 : ∀ f n, s.pc f = .wLoop n → n = f
-  wData1 : ∀ f n, s.pc f = .wLoop n → s.ndata f = f
-  wData2 : ∀ f n c, s.pc f = .wLdC n c → s.ndata f = f
-  wData3 : ∀ f n c h, s.pc f = .wLdH n c h → s.ndata f = f
-  wData4 : ∀ f n c h, s.pc f = .wNext n c h → s.ndata f = f
-  snapW1 : ∀ f n c, s.pc f = .wLdC n c → c ≤ s.counter ∧ n = f
-  snapW2 : ∀ f n c h, s.pc f = .wLdH n c h → c ≤ s.counter ∧ (c = s.counter → s.head = h) ∧ n = f
-  snapW3 : ∀ f n c h, s.pc f = .wNext n c h →
-    c ≤ s.counter ∧ (c = s.counter → s.head = h) ∧ n = f ∧ s.next n = h ∧ h ≠ .raised
-  snapR1 : ∀ f c, s.pc f = .rLdC c → c ≤ s.counter
-  snapR2 : ∀ f c h, s.pc f = .rLdH c h → c ≤ s.counter ∧ (c = s.counter → s.head = h)
-  snapR3 : ∀ f c n x, s.pc f = .rNext c n x →
-    c ≤ s.counter ∧ (c = s.counter → s.head = .node n ∧ x = s.next n)
-  waker_target : ∀ f g, s.waker f = some g → (s.pc g).targets f
-  target_waker1 : ∀ f g, s.pc g = .rPopped f → s.waker f = some g
-  target_waker2 : ∀ f g, s.pc g = .rGotData f f → s.waker f = some g
-  target_waker3 : ∀ f g, s.pc g = .rGaveNode f → s.waker f = some g
-  target_waker4 : ∀ f g, s.pc g = .rReady f → s.waker f = some g
-  waker_sleepy : ∀ f g, s.waker f = some g →
-    (s.pc f).sleepy ∧ s.wakes f + 1 = s.parks f ∧ f ∉ s.stack ∧ s.ndata f = f
-  owed : ∀ f, (s.pc f).sleepy → s.wakes f + 1 = s.parks f → f ∈ s.stack ∨ ∃ g, s.waker f = some g
-  counts : ∀ f, s.wakes f = s.parks f ∨ ((s.pc f).sleepy ∧ s.wakes f + 1 = s.parks f)
-  woken_parked : ∀ f, (s.pc f).sleepy → s.wakes f = s.parks f → s.pc f = .parked
-  marker : ∀ f, s.scratch f = true ↔ s.pc f = .parked
-  ready_parked : ∀ r g, s.pc r = .rReady g → s.pc g = .parked
-  gotData_eq : ∀ f m g, s.pc f = .rGotData m g → m = g
+/-- A successful CAS2 of a wait either consumes a latched RAISED (and the wait returns without
+    sleeping) or lists the waiter on top. -/
+theorem wait_cas_ok {s s' : St} (hi : Inv s) (f ec : Nat) (eh : H) (nc : Nat) (nh : H)
+    (hw : (s.pc f).waitCas) (hs : step s (.cas2 f ec eh nc nh true) = some s') :
+    (eh = .raised ∧ s.head = .raised ∧ s.stack = [] ∧ s'.head = .nil ∧ s'.stack = [] ∧
+        s'.pc f = .waitDone ∧ s'.parks = s.parks ∧ s'.consumed = s.consumed + 1) ∨
+    (eh ≠ .raised ∧ s'.head = .node f ∧ s'.stack = f :: s.stack ∧ s'.pc f = .wListed ∧
+        s'.parks f = s.parks f + 1) := by
+  obtain ⟨hraised, hnil, hnode⟩ := stack_of_head hi
+  by_cases hpre : true ≠ casOk s ec eh ∨ nc ≠ ec + 1
+  · simp only [step, if_pos hpre] at hs; simp at hs
+  simp only [step, if_neg hpre] at hs
+  simp only [not_or, Decidable.not_not, casOk] at hpre
+  obtain ⟨hok, hnc⟩ := hpre
+  simp at hok
+  obtain ⟨hcnt, hhead⟩ := hok
+  simp only [Pc.waitCas] at hw
+  rcases hw with ⟨n, c, h, hpc⟩ | ⟨n, c, h, hpc⟩
+  · simp only [hpc] at hs
+    split at hs
+    · left
+      split at hs <;> simp at hs
+      rename_i hc
+      obtain ⟨hec, heh, hnh⟩ := hc
+      subst hec heh hnh hs
+      exact ⟨rfl, hhead, hraised hhead, rfl, hraised hhead, by simp [upd], rfl, rfl⟩
+    all_goals (first | (simp at hs; done) | (rename_i hq; simp at hq))
+  · right
+    simp only [hpc] at hs
+    split at hs <;> simp at hs
+    rename_i hc
+    obtain ⟨hec, heh, hnh⟩ := hc
+    subst hec heh hnh hs
+    obtain ⟨_, _, hnf, _, hnr⟩ := hi.snapW3 f n ec eh hpc
+    subst hnf
+    exact ⟨hnr, rfl, rfl, by simp [upd], by simp [upd]⟩
 
-theorem inv_init : Inv (init (fun k => k)) := by
-  constructor <;> simp [init, headOf, Chain, Pc.sleepy, Pc.targets]
+/-- each sleep is ended by at most one wake-up, issued by one raiser -/
+theorem single_wake_of_inv {s : St} (hi : Inv s) (f : Nat) :
+    s.wakes f ≤ s.parks f ∧ s.parks f ≤ s.wakes f + 1 ∧
+    (∀ g g', (s.pc g).targets f → (s.pc g').targets f → g = g') := by
+  refine ⟨?_, ?_, ?_⟩
+  · rcases hi.counts f with h | h <;> omega
+  · rcases hi.counts f with h | h <;> omega
+  · intro g g' hg hg'
+    have tw : ∀ g, (s.pc g).targets f → s.waker f = some g := by
+      intro g hg
+      rcases hg with h | h | h | h
+      · exact hi.target_waker1 f g h
+      · exact hi.target_waker2 f g h
+      · exact hi.target_waker3 f g h
+      · exact hi.target_waker4 f g h
+    have a := tw g hg
+    have b := tw g' hg'
+    rw [a] at b; exact Option.some.inj b
+
+/-- the wake-up happens after the sleeper's context switch (its marker), and it was owed -/
+theorem wake_after_marker_of_inv {s s' : St} (hi : Inv s) (g f : Nat)
+    (hs : step s (.wStateReady g f) = some s') :
+    s.pc f = .parked ∧ s.scratch f = true ∧ s.wakes f + 1 = s.parks f ∧ f ∉ s.stack ∧
+    s'.wakes f = s'.parks f := by
+  simp only [step] at hs
+  split at hs <;> simp at hs
+  rename_i g' hpc
+  obtain ⟨hg, hs⟩ := hs
+  subst hg hs
+  have hpk := hi.ready_parked g f hpc
+  have hw := hi.target_waker4 f g hpc
+  have := hi.waker_sleepy f g hw
+  refine ⟨hpk, (hi.marker f).2 hpk, this.2.1, this.2.2.1, ?_⟩
+  simp [upd]; omega
+
+/-- a fiber that is asleep and not yet woken is listed, or a raiser holds it and will wake it:
+    its wake-up cannot have been dropped -/
+theorem asleep_accounted {s : St} (hi : Inv s) (f : Nat) (hsl : (s.pc f).sleepy)
+    (hun : s.wakes f + 1 = s.parks f) :
+    (f ∈ s.stack ∧ ∀ g, ¬ (s.pc g).targets f) ∨ (f ∉ s.stack ∧ ∃ g, (s.pc g).targets f) := by
+  rcases hi.owed f hsl hun with h | ⟨g, h⟩
+  · left
+    refine ⟨h, fun g hg => ?_⟩
+    have := (hi.listed f h).2.2.1 g
+    rcases hg with h' | h' | h' | h'
+    · exact this (hi.target_waker1 f g h')
+    · exact this (hi.target_waker2 f g h')
+    · exact this (hi.target_waker3 f g h')
+    · exact this (hi.target_waker4 f g h')
+  · right
+    exact ⟨(hi.waker_sleepy f g h).2.2.1, g, hi.waker_target f g h⟩
+
+
+/-- the successful double-word CASes of a trace -/
+def casOkEv : Ev → Bool
+  | .cas2 _ _ _ _ _ true => true
+  | _ => false
+
+theorem updates_step (s s' : St) (e : Ev) (hs : step s e = some s') :
+    s'.updates = s.updates + (if casOkEv e then 1 else 0) := by
+  cases e with
+  | cas2 f ec eh nc nh ok =>
+    by_cases hpre : ok ≠ casOk s ec eh ∨ nc ≠ ec + 1
+    · simp only [step, if_pos hpre] at hs; simp at hs
+    simp only [step, if_neg hpre] at hs
+    cases ok <;> simp only [casOkEv] <;> (repeat' (split at hs))
+    all_goals (first | contradiction | skip)
+    all_goals (try simp at hs)
+    all_goals (first | (subst hs; simp) | (obtain ⟨_, hs⟩ := hs; subst hs; simp))
+  | _ =>
+    simp only [step] at hs
+    all_goals (repeat' (split at hs))
+    all_goals (try simp at hs)
+    all_goals (first | (subst hs; simp [casOkEv]) | (obtain ⟨_, hs⟩ := hs; subst hs; simp [casOkEv]))
+
+theorem updates_of_run {es : List Ev} {s : St} (h : (sys (fun k => k)).run es = some s) :
+    s.updates = (es.filter casOkEv).length := by
+  refine Sys.hist_inv_of_run (sys (fun k => k)) (fun s es => s.updates = (es.filter casOkEv).length)
+    (by simp [sys, init]) ?_ h
+  intro s es e s' hI hs
+  have := updates_step s s' e hs
+  simp only [List.filter_append, List.length_append, this, hI]
+  cases hc : casOkEv e <;> simp [List.filter, hc]
 
 end LibfiberVerif.MultiSignal
